@@ -165,6 +165,14 @@ def run(ctx):
             variants.append(dataclasses.replace(res, edges_list_hashes=None))
         lk = sorted(res.layers)[-1]
         variants.append(dataclasses.replace(res, layers={kk: (v + 1 if kk == lk else v) for kk, v in res.layers.items()}))
+        # the SET of stored layers is a field too: one layer fewer / one layer more
+        if len(res.layers) >= 2:
+            variants.append(dataclasses.replace(res, layers={kk: v for kk, v in res.layers.items() if kk != lk}))
+        missing_ = [kk for kk in range(len(res.layer_sizes)) if kk not in res.layers]
+        if missing_:
+            extra_ = dict(res.layers)
+            extra_[missing_[0]] = res.layers[lk]
+            variants.append(dataclasses.replace(res, layers=extra_))
         for v in variants:
             try:
                 if bool(v == loaded) or bool(loaded == v):
@@ -189,6 +197,25 @@ def run(ctx):
                     ctx.violation("property_fails", f"find_path_to on the loaded result with a fresh graph (seed {seed}) gives {b}, the original gave {a}", dict(case, query=q), True)
                     break
             ctx.count("path_queries_on_loaded")
+            # ONE graph object answers queries on SEVERAL results in turn (same layer sizes, other hashes: searches from other start states of a
+            # vertex-transitive graph): each answer must come from the result it was asked about
+            if not long_states and len(dist) >= 6 and len(set(gd["central"])) == len(gd["central"]):
+                s2 = list(rng.choice(sorted(dist)))
+                kw2 = {k_: v_ for k_, v_ in kw.items() if k_ != "return_all_edges"}
+                res2 = graph.bfs(start_states=[s2], **kw2)
+                if list(res2.layer_sizes) == list(res.layer_sizes):
+                    ctx.count("two_results_same_sizes_on_one_graph")
+                    _, dist2 = G.ref_bfs(gd, [s2])
+                    for q in qs_[:2]:
+                        for rr, dd, nm in ((res, dist, "central"), (res2, dist2, "other start"), (res, dist, "central")):
+                            a, _ = P.res_path_lit(lambda: fresh.find_path_to(list(q), rr))
+                            inside = tuple(q) in dd and dd[tuple(q)] <= len(rr.layer_sizes) - 1
+                            okp = (a is None and not inside) or (isinstance(a, list) and inside and len(a) == dd[tuple(q)])
+                            if not okp:
+                                ctx.violation("property_fails", f"find_path_to on the result of the BFS from the {nm} gives {a} for a state at distance "
+                                              f"{dd.get(tuple(q))} (ball depth {len(rr.layer_sizes) - 1}) after the same graph answered for another result",
+                                              dict(case, query=q, claim="results_in_turn"), True)
+                                break
         cases.append(f"(Build_sl_case {result_lit(res)} {store_lit(path)} {result_lit(loaded)} {cbool(eq)})")
         metas.append(case)
         os.remove(path)
